@@ -41,6 +41,7 @@ class FuncRun(ExprMixin, InstrMixin, CallMixin):
         self.regs = {}
         self.heap0 = {}
         self.heap_epochs = {}
+        self.heap_sorts = {}
         self.event_counter = 0
         self.abstracted = []
         self.unmodelled = set()
@@ -97,9 +98,15 @@ class FuncRun(ExprMixin, InstrMixin, CallMixin):
         for f in self.ty.facts(v, tn, self.mode == 'wrap'):
             self.add_fact_once(f)
 
+    SAFETY_KINDS = ('bounds', 'div0', 'make', 'conv', 'panic')
+
     def oblige(self, kind, cond, state, text='', pos='', clause=None, slug=None, report_only=False, fnname=None):
         """cond must hold whenever state.pc holds."""
         if self.mute:
+            return None
+        if kind in self.SAFETY_KINDS and self.spec is not None and 'no-safety' in self.spec.flags:
+            # function only partially under contract: its index/division safety is NOT claimed (listed in evidence)
+            self.unsafe_skipped = getattr(self, 'unsafe_skipped', 0) + 1
             return None
         if clause is not None:
             self.clause_hits[id(clause)] = self.clause_hits.get(id(clause), 0) + 1
@@ -161,6 +168,10 @@ class FuncRun(ExprMixin, InstrMixin, CallMixin):
         a = state.heap.get(name)
         if a is not None:
             return a
+        if sort is not None:
+            self.heap_sorts[name] = sort
+        elif name in self.heap_sorts:
+            sort = self.heap_sorts[name]
         ep = state.heap.get('#epoch')
         epn = ep[1] if ep is not None else 0
         if epn == 0:
@@ -771,6 +782,8 @@ class FuncRun(ExprMixin, InstrMixin, CallMixin):
                         pass
             elif kind == 'heap':
                 cur = self.heap_get(h, key, None)
+                if cur is None:
+                    continue
                 srt = T.sort_of(cur)
                 if stable_keys and key in stable_keys and ('heapall', None) not in writes:
                     ks_, fresh_too = stable_keys[key]
